@@ -166,6 +166,23 @@ def rule_invalid_target_verdict(ctx):
     shared.check_targets_reconciled_after_resume(ctx, "a valid target is reported as invalid (exit status FAILED, nothing built) because plan.py, edited since the last run, was not yet marked pending when the target was examined")
 
 
+def rule_invalid_target_wiring(ctx):
+    """R-C19-6: a target found invalid is reported and sets the failed bit (def-use of the local collection)."""
+    fi = ctx.prog.func("finalize._report_missing_targets")
+    filled, _, detail = shared.wiring(fi, "invalid_targets", "reporter")
+    # filled inside the handler of the error that _raise_if_forbidden_target raises
+    in_handler = False
+    for t in ast.walk(fi.node):
+        if isinstance(t, ast.Try) and any(callee_name(c) == "_raise_if_forbidden_target" for st_ in t.body for c in calls_in(st_)):
+            for h in t.handlers:
+                if h.type is not None and "GraphError" in ast.unparse(h.type) and any(isinstance(c.func, ast.Attribute) and c.func.attr == "append" and ast.unparse(c.func.value) == "invalid_targets" for st_ in h.body for c in calls_in(st_)):
+                    in_handler = True
+    ctx.check(filled and in_handler, fi.fq, "a target in a forbidden state is recorded as invalid", f"{detail}; recorded in the GraphError handler: {in_handler}: an invalid target is silently dropped, the build reports nothing and exits 0", "except GraphError: invalid_targets.append(...)", where=ctx.where_of(fi))
+    loops = [l for l in ast.walk(fi.node) if isinstance(l, ast.For) and "invalid_targets" in ast.unparse(l.iter)]
+    ok = any(any(isinstance(a, ast.AugAssign) and "ReturnCode.FAILED" in ast.unparse(a.value) for a in ast.walk(l)) and any(callee_name(c) == "reporter" for c in calls_in(l)) for l in loops)
+    ctx.check(ok, fi.fq, "every invalid target is reported as an error and sets the failed bit", "invalid targets do not reach the exit status", "for ... in invalid_targets: reporter(ERROR); returncode |= FAILED")
+
+
 def rule_partition(ctx):
     """R-C19-3."""
     t = ctx.cat.tables.get("pend_blocker")
@@ -263,6 +280,7 @@ RULES = [
     Rule("R-C19-2", "flag guards", rule_flag_guards, min_instances=10),
     Rule("R-C19-3", "partition structure of the pending report", rule_partition, min_instances=22),
     Rule("R-C19-4", "scratch tables", rule_scratch, min_instances=3),
+    Rule("R-C19-6", "invalid targets reach the report and the exit status", rule_invalid_target_wiring, min_instances=2),
     Rule("R-C19-5", "invalid-target verdict is taken after the startup rescans", rule_invalid_target_verdict, min_instances=1),
 ]
 
@@ -291,6 +309,8 @@ WHERE req.node IN (SELECT i FROM pend_step)
 
 
 MUTANTS = [
+    Mutant("invalid-target-dropped", "finalize.py", in_function("_report_missing_targets", replace_once("                    invalid_targets.append((target, str(exc)))\n", "                    pass\n")), ("R-C19-6",)),
+    Mutant("invalid-target-without-failed-bit", "finalize.py", in_function("_report_missing_targets", replace_once('        await reporter("ERROR", f"Invalid build target: {message}")\n        returncode |= ReturnCode.FAILED\n', '        await reporter("ERROR", f"Invalid build target: {message}")\n')), ("R-C19-6",)),
     Mutant("invalid-target-only-warns", "finalize.py", in_function("_report_missing_targets", replace_once("        returncode |= ReturnCode.FAILED\n", "        returncode |= ReturnCode.WARNING\n")), ("R-C19-2",)),
     Mutant("resource-arm-any-request", "pending.py", _resource_arm_drop, ("R-C19-3",)),
     Mutant("resource-seed-any-request", "pending.py", _resource_seed_drop, ("R-C19-3",)),
